@@ -94,7 +94,8 @@ func (k Keeper) HandleTimeoutOrder(ctx sdk.Context, orderId uint64) {
 					var payAddr sdk.AccAddress
 					var err error
 					if order.PaymentDid != "" {
-						payAddr, err = k.did.GetCosmosPaymentAddress(ctx, order.Owner)
+						// whoever paid for the order gets the price of the dropped replicas back
+						payAddr, err = k.did.GetCosmosPaymentAddress(ctx, order.PaymentDid)
 					} else {
 						payAddr, err = k.did.GetCosmosPaymentAddress(ctx, order.Owner)
 					}
